@@ -7528,3 +7528,110 @@ mod tests {
         assert!(dt.validate().is_ok());
     }
 }
+
+/// Forwarding wrappers over this module's private batch-construction kernels.
+///
+/// Compiled only with the `verif-hooks` cargo feature; used by external
+/// verification harnesses. Every function forwards to the private item of the
+/// same name without changing behaviour.
+#[cfg(feature = "verif-hooks")]
+#[doc(hidden)]
+#[allow(missing_docs, clippy::missing_errors_doc, clippy::must_use_candidate)]
+pub mod verif_hooks_dt {
+    use super::{DataType, InsertionOrderStrategy, Vertex};
+    use crate::geometry::kernel::FastKernel;
+    use crate::geometry::traits::coordinate::CoordinateScalar;
+
+    pub fn order_vertices_by_strategy<T, U, const D: usize>(
+        vertices: Vec<Vertex<T, U, D>>,
+        insertion_order: InsertionOrderStrategy,
+    ) -> Vec<Vertex<T, U, D>>
+    where
+        T: CoordinateScalar,
+        U: DataType,
+    {
+        super::order_vertices_by_strategy(vertices, insertion_order)
+    }
+
+    pub fn morton_bits_per_coord<const D: usize>() -> Option<u32> {
+        super::morton_bits_per_coord::<D>()
+    }
+
+    pub fn morton_code<const D: usize>(quantized: [u64; D], bits_per_coord: u32) -> u64 {
+        super::morton_code::<D>(quantized, bits_per_coord)
+    }
+
+    pub fn hilbert_bits_per_coord<const D: usize>() -> Option<u32> {
+        super::hilbert_bits_per_coord::<D>()
+    }
+
+    pub fn quantize_coords<T: CoordinateScalar, const D: usize>(
+        coords: &[T; D],
+        inv_cell: f64,
+    ) -> Option<[i64; D]> {
+        super::quantize_coords(coords, inv_cell)
+    }
+
+    pub fn default_duplicate_tolerance<T: CoordinateScalar>() -> T {
+        super::default_duplicate_tolerance::<T>()
+    }
+
+    pub fn dedup_vertices_exact_sorted<T, U, const D: usize>(
+        vertices: Vec<Vertex<T, U, D>>,
+    ) -> Vec<Vertex<T, U, D>>
+    where
+        T: CoordinateScalar,
+        U: DataType,
+    {
+        super::dedup_vertices_exact_sorted(vertices)
+    }
+
+    pub fn dedup_vertices_epsilon_n2<T, U, const D: usize>(
+        vertices: Vec<Vertex<T, U, D>>,
+        epsilon: T,
+    ) -> Vec<Vertex<T, U, D>>
+    where
+        T: CoordinateScalar,
+        U: DataType,
+    {
+        super::dedup_vertices_epsilon_n2(vertices, epsilon)
+    }
+
+    pub fn dedup_vertices_epsilon_quantized<T, U, const D: usize>(
+        vertices: Vec<Vertex<T, U, D>>,
+        epsilon: T,
+    ) -> Vec<Vertex<T, U, D>>
+    where
+        T: CoordinateScalar,
+        U: DataType,
+    {
+        super::dedup_vertices_epsilon_quantized(vertices, epsilon)
+    }
+
+    pub fn select_balanced_simplex_indices<T, U, const D: usize>(
+        vertices: &[Vertex<T, U, D>],
+    ) -> Option<Vec<usize>>
+    where
+        T: CoordinateScalar,
+        U: DataType,
+    {
+        super::select_balanced_simplex_indices(vertices)
+    }
+
+    pub fn reorder_vertices_for_simplex<T, U, const D: usize>(
+        vertices: &[Vertex<T, U, D>],
+        simplex_indices: &[usize],
+    ) -> Option<Vec<Vertex<T, U, D>>>
+    where
+        T: CoordinateScalar,
+        U: DataType,
+    {
+        super::reorder_vertices_for_simplex(vertices, simplex_indices)
+    }
+
+    pub fn construction_shuffle_seed<const D: usize>(vertices: &[Vertex<f64, (), D>]) -> u64 {
+        super::DelaunayTriangulation::<FastKernel<f64>, (), (), D>::construction_shuffle_seed(
+            vertices,
+        )
+    }
+}
